@@ -162,7 +162,7 @@ SHAPES = {"dcf": shape_dcf, "flat": shape_flat, "classes": shape_classes, "sub":
 
 OPTIONS = {
     "dcf": ["cfg", "num", "req", "name", "list", "g.x", "g"],
-    "flat": ["cfg", "num", "ratio", "name", "flag", "yes", "no_yes", "list", "dict", "tup", "opt", "color", "pos", "g.x", "g.h.y", "g", "g.h", "choice", "many", "any"],
+    "flat": ["cfg", "num", "ratio", "name", "flag", "yes", "no_yes", "list", "dict", "tup", "opt", "color", "pos", "g.x", "g.h.y", "g", "g.h", "choice", "many", "any", "any.x", "name.x"],
     "classes": ["cfg", "sub", "osub", "subs", "dsub", "holder", "dc", "odc", "grp", "tp", "kw", "dec", "rng", "sub.init_args.a", "sub.class_path", "sub.a", "sub.init_args", "holder.child", "holder.init_args.child", "holder.init_args.child.init_args.a",
                 "dc.inner.name", "dc.inner.tags", "dc.pt", "grp.c", "kw.dict_kwargs", "kw.dict_kwargs.z", "kw.init_args.q", "subs.init_args.a", "dsub.k", "dsub.k.init_args.a", "sub.help", "osub.help"],
     "sub": ["cfg", "top", "fit.x", "x", "l", "y", "z", "fit", "test", "test.deep.z"],
@@ -427,6 +427,14 @@ def case(ctx, i, rng, fx):
         culprit = "yaml-self-alias" if "yaml-self-alias" in cl or "&x [*x]" in str(pcopy) or "&a {k: *a}" in str(pcopy) or any("*" in str(v) and "&" in str(v) for v in (env or {}).values()) else "other"
         ctx.violation("termination", f"step-budget-exceeded/{culprit}", dict(shape=shape, method=method, payload=short(pcopy, 600), env=env, classes=cl, budget=STEP_BUDGET))
         return
+    if o.accepted and method == "parse_args" and shape != "pos" and i % 3 == 0 and "--print_config" not in " ".join(map(str, pcopy)):
+        # what parse_args accepts it can also print: the same command line with --print_config ends with status 0
+        o3, _ = run_call(factory(), method, ["--print_config"] + list(pcopy), env)
+        ctx.count("mon.print_config_of_accepted_argv")
+        bad3 = classify_outcome(o3, eoe)
+        if bad3 is not None or o3.kind != "exit":
+            ctx.violation("outcome", f"{bad3 or 'no-exit-' + o3.kind}@{o3.frame}<-argv+print_config", dict(shape=shape, exit_on_error=eoe, method=method, argv=["--print_config"] + list(pcopy), outcome=o3.brief(), tb=o3.tb, input_classes="accepted-argv"))
+            return
     bad = classify_outcome(o, eoe)
     if bad is None and i % 2 == 0 and method != "parse_object" and (o.accepted or o.rejected or (o.kind == "exit" and o.code == 0)):
         # the two exit_on_error modes report the same decision: what fails in one cannot print a config and exit 0 in the other
